@@ -299,8 +299,8 @@ def check_negative(case):
 
 
 def shards(tier):
-    out = [{'name': 'positive-%d' % i, 'kind': 'pos', 'examples': 400 if tier == 'quick' else 15000, 'hypothesis': True} for i in range(12)]
-    out += [{'name': 'negative-%d' % i, 'kind': 'neg', 'examples': 500 if tier == 'quick' else 15000, 'hypothesis': True} for i in range(4)]
+    out = [{'name': 'positive-%d' % i, 'kind': 'pos', 'examples': 1500 if tier == 'quick' else 15000, 'hypothesis': True} for i in range(12)]
+    out += [{'name': 'negative-%d' % i, 'kind': 'neg', 'examples': 1500 if tier == 'quick' else 15000, 'hypothesis': True} for i in range(4)]
     return out
 
 
